@@ -10,7 +10,7 @@ import (
 )
 
 func init() {
-	register("C04", "Decides, on every accept path of every matcher, what the stored ProbeResponse.IsDest can be: constant false; an expression that IS the comparison outer-source == target; or constant true only on paths that carry that comparison (R04.1), and that a possibly-true IsDest only occurs on the protocol's proof-of-arrival form: echo reply (ICMP), any accepted ICMP error in value form (UDP), SYN-ACK/RST from the target port (TCP SYN), SACK-carrying ACK or value form on time-exceeded (SACK) (R04.2). R04.3: GetDestinationHop returns the first IsDest hop and the e2e RTT is that hop's RTT (0 when none). Quantifies over all reply packets and responder addresses; decoder correctness is trusted. (R04.4) The other direction of 'exactly when': on the reply forms that prove arrival for the protocol (echo reply for ICMP; any ICMP quote for UDP; direct TCP for SYN; direct TCP and ICMP quote for SACK) IsDest is not constant false. (R04.5) IsDest of a reply / hop is stored only while that value is being built in the same function (or cleared); the parser's destination-unreachable test looks at the ICMP type alone.", runC04)
+	register("C04", "Decides, on every accept path of every matcher, what the stored ProbeResponse.IsDest can be: constant false; an expression that IS the comparison outer-source == target; or constant true only on paths that carry that comparison (R04.1), and that a possibly-true IsDest only occurs on the protocol's proof-of-arrival form: echo reply (ICMP), any accepted ICMP error in value form (UDP), SYN-ACK/RST from the target port (TCP SYN), SACK-carrying ACK or value form on time-exceeded (SACK) (R04.2). R04.3: GetDestinationHop returns the first IsDest hop and the e2e RTT is that hop's RTT (0 when none). Quantifies over all reply packets and responder addresses; decoder correctness is trusted. (R04.4) The other direction of 'exactly when': on the reply forms that prove arrival for the protocol (echo reply for ICMP; any ICMP quote for UDP; direct TCP for SYN; direct TCP and ICMP quote for SACK) IsDest is not constant false. (R04.5) IsDest of a reply / hop is stored only while that value is being built in the same function (or cleared); the parser's destination-unreachable test looks at the ICMP type alone. The IPv6 pair builder keeps the address family (R01.10, shared with C01).", runC04)
 	darwinRules["C04"] = runC04
 }
 
